@@ -14,6 +14,12 @@ let () =
     | ["mul64"; a; b; r] ->
         let m = hex_of_z (b64_encode (fmul64 (b64_decode (z_of_hex a)) (b64_decode (z_of_hex b)))) in
         if m <> r then report "mul64" (a ^ " " ^ b) r m
+    | ["div32"; a; b; r] ->
+        let m = hex_of_z (b32_encode (fdiv32 (b32_decode (z_of_hex a)) (b32_decode (z_of_hex b)))) in
+        if m <> r then report "div32" (a ^ " " ^ b) r m
+    | ["div64"; a; b; r] ->
+        let m = hex_of_z (b64_encode (fdiv64 (b64_decode (z_of_hex a)) (b64_decode (z_of_hex b)))) in
+        if m <> r then report "div64" (a ^ " " ^ b) r m
     | ["lrintf"; a; r] ->
         let m = string_of_int (int_of_z (psf_lrint (b32_decode (z_of_hex a)))) in
         if m <> r then report "lrintf" a r m
